@@ -27,6 +27,13 @@ def jobs(tier):
     out.append(SMT(name="lex_classes", func="vf.smt.lexer:q_classes", functions=F[:1], timeout=600,
                    note="every token class the live lexer produces equals the reference class (identifiers, integers, numbers, dotted identifiers, binary strings, "
                         "newlines), under the ordered first-match model, for strings of unbounded length; literal and ignored characters as specified"))
+    from ..harness.strings import TOKCTX
+    for ctx in range(len(TOKCTX)):
+        out.append(CH(name=f"c02_tokdiff_{ctx}", base="c02_tokdiff", func=f"{H}:c02_tokdiff", params=[("t0", "int"), ("t1", "int"), ("t2", "int")],
+                      pre=["0 <= t0 < 8", "0 <= t1 < 8", "0 <= t2 < 8"], fixed={"ctx": ctx}, timeout=600 if q else 1800, functions=F,
+                      note=f"three solver-chosen tokens from {{gate, ';', newline, '|', '<', '>', '{{', '}}'}} in the hole of {TOKCTX[ctx][0]!r} _ {TOKCTX[ctx][1]!r}, through "
+                           "parse_to_sexpression itself (token-stream handling between lexer and LALR driver included): accepted <=> derivable from the reference grammar; "
+                           "texts are concrete once chosen (enumeration-equivalent)"))
     if not q:
         # character-level differential with the reference tokenizer executed symbolically: expensive, thorough tier only
         out.append(CH(name="c02_diff_whole", base="c02_diff", func=f"{H}:c02_diff", params=[("s", "str")], pre=["len(s) <= 1"], fixed={"pre": "", "post": ""},
